@@ -424,6 +424,105 @@ def h_msb_first(ck, F):
                      'starts at byte bits_read/8, offset bits_read%8, accum 0; returns accum', where_of(b, upd_acc[0][0]))
 
 
+def w_width_prologue(ck, F):
+    ck.rule('W', 'peek_bits decides the width before touching the stream, for every width: more bits than the result type holds -> Err(InternalDecoderError); 0 bits -> Ok(0) '
+                 'with nothing buffered or consumed; 1..=W bits -> ensure_bits(bits_needed) and the assembly loop. The guards of every return are evaluated for all '
+                 'bits_needed in 0..=W+8 and W in {8, 16, 32}; a guard that underflows or cannot be evaluated is reported')
+    from ..bitslice import Table
+    from ..loopexpr import Norm, show as nshow, ev, NotExact, guards as nguards, guard_term
+    name = RD + 'peek_bits'
+    b = F.body(name); T = Table(F, name, paths=False, cast_kinds=True); N = Norm(T); g = T.g
+    loops = g.loops()
+    if len(loops) != 1: ck.violation('W', 'W : peek_bits : loop', where_of(b), 'expected one loop, found %d' % len(loops)); return
+    head, body = next(iter(loops.items()))
+    NEED = N.n(('param', 2, ()))
+    class Free(Exception): pass
+    class Under(Exception): pass
+    def evw(t, n, W):
+        if t == NEED: return n
+        k = t[0]
+        if k == 'c' and isinstance(t[1], int) and not isinstance(t[1], bool): return t[1]
+        if k == 'f':
+            f = t[1]
+            if f == 'satsub': return max(0, evw(t[2], n, W) - evw(t[3], n, W))
+            if f == 'checked_shl' and len(t) == 4 and nshow(t[2]) == 'zero()':
+                sh = evw(t[3], n, W)
+                if sh < 0: raise Under('the shift amount %s is %d for bits_needed = %d (u32 underflow: panics with overflow checks, wraps to a huge shift without)' % (nshow(t[3]), sh, n))
+                return ('opt', sh < W)
+            if f in ('is_none', 'is_some') and len(t) == 3:
+                o = evw(t[2], n, W)
+                if not (isinstance(o, tuple) and o[0] == 'opt'): raise Free()
+                return int(o[1] == (f == 'is_some'))
+            if f == 'discr' and len(t) == 3:
+                o = evw(t[2], n, W)
+                if not (isinstance(o, tuple) and o[0] == 'opt'): raise Free()
+                return int(o[1])
+            if f == 'Not' and len(t) == 3: return 1 - evw(t[2], n, W)
+            if f in ('Eq', 'Ne', 'Lt', 'Le', 'Gt', 'Ge') and len(t) == 4:
+                x, y = evw(t[2], n, W), evw(t[3], n, W)
+                if isinstance(x, tuple) or isinstance(y, tuple): raise Free()
+                return int({'Eq': x == y, 'Ne': x != y, 'Lt': x < y, 'Le': x <= y, 'Gt': x > y, 'Ge': x >= y}[f])
+            if f in ('min', 'max') and len(t) >= 4: return (min if f == 'min' else max)(evw(x, n, W) for x in t[2:])
+            if f.startswith('as_') and len(t) == 3: return evw(t[2], n, W)
+            raise Free()
+        if k in ('+', '*'):
+            try:
+                v = ev(t, {NEED: n})
+            except (NotExact, KeyError, TypeError, Unanalysable):
+                raise Free()
+            if v < 0: raise Under('%s is %d for bits_needed = %d (unsigned underflow)' % (nshow(t), v, n))
+            return v
+        raise Free()
+    rets = [(x[0], N.n(x[2])) for x in T.local_defs(0) if x[2] is not None]
+    if any(x[2] is None for x in T.local_defs(0)):
+        ck.violation('W', 'W : peek_bits : returns', where_of(b), 'a definition of the return value could not be read'); return
+    gd = {bb: [guard_term(T, N, a_, s_) for a_, s_ in sorted(nguards(T, bb))] for bb, _ in rets}
+    ERR, ZERO = 'Err(InternalDecoderError())', 'Ok(zero())'
+    msg = None; free_seen = set()
+    try:
+        for W in (8, 16, 32):
+            buffered = set()
+            for n in list(range(1, W + 9)) + [0]:
+                fired = set()
+                for bb, v in rets:
+                    ok = True
+                    for term, vals, is_other, all_vals in gd[bb]:
+                        try: x = evw(term, n, W)
+                        except Free:
+                            free_seen.add(nshow(term)); continue
+                        if isinstance(x, tuple): free_seen.add(nshow(term)); continue
+                        took = (x in vals) or (is_other and x not in all_vals)
+                        if not took: ok = False; break
+                    if ok: fired.add(nshow(v))
+                if n > W: want_ok = fired == {ERR}
+                elif n == 0:
+                    # either the explicit early return, or the buffered read with nothing to read (ensure_bits(0) buffers nothing by rule E's
+                    # needed_bytes_for_bits form, the loop takes no bits when nothing is needed by rule H, the accumulator starts as zero)
+                    want_ok = bool(fired) and ERR not in fired and fired <= ({ZERO} | buffered)
+                else:
+                    want_ok = bool(fired) and ERR not in fired and ZERO not in fired
+                    if want_ok: buffered |= fired
+                if not want_ok:
+                    msg = 'for a %d-bit result and bits_needed = %d the function can return %s; expected %s' % (
+                        W, n, sorted(fired), ERR if n > W else ('%s (a zero-width read yields 0 and consumes nothing)' % ZERO if n == 0 else 'the buffered read (ensure_bits, then the loop)'))
+                    break
+            if msg: break
+    except Under as e_:
+        msg = str(e_)
+    if msg: ck.violation('W', 'W : peek_bits : width prologue', where_of(b), msg)
+    else: ck.ok('W', 'peek_bits: bits_needed > W -> Err(InternalDecoderError); bits_needed == 0 -> Ok(0); otherwise the buffered read - all bits_needed in 0..=W+8 for W = 8, 16, 32 '
+                     '(guards not depending on bits_needed alone: %s)' % sorted(free_seen), where_of(b))
+    # the buffered read asks for exactly bits_needed, once, before the loop, and bits_needed is the caller's value there
+    en = [(bb, t) for bb, t in g.calls() if F.callee_name(t).split('#')[0].endswith('::ensure_bits')]
+    outside = [d for l, nm in T.names.items() if ('v', nm) == NEED for d in T.D.defs.get(int(l), []) if d[0] in ('assign', 'call') and d[1] not in body]
+    if len(en) != 1 or N.n(T.ex(en[0][1]['args'][1])) != NEED or en[0][0] in body or not g.dominates(en[0][0], head) or outside:
+        ck.violation('W', 'W : peek_bits : ensure_bits', where_of(b), 'expected one ensure_bits(bits_needed) dominating the loop with bits_needed unchanged before it; found %s%s' % (
+            [nshow(N.n(T.ex(t['args'][1]))) for _, t in en], ' (bits_needed reassigned before the loop)' if outside else ''))
+    else: ck.ok('W', 'peek_bits: ensure_bits(bits_needed) once, before the loop, with the caller\'s bits_needed', where_of(b, en[0][0]))
+    # the signed variant and the readers delegate to peek_bits (rule C) - peek_signed_bits computes its sign extension from the same width
+    # zero-width: skip_bits(0) leaves the position unchanged by rule A's form bits_read += bits_to_skip
+
+
 def f_start_code(ck, F):
     ck.rule('F', 'start-code scan: the compared window is always peek_bits(17); Some(k) is returned only on window == 1; each iteration skips exactly one '
                  'bit and increments k by one; None is returned only when !in_error and k > realignment_bits()')
@@ -597,5 +696,6 @@ def run(ck, F, tier):
     c05.t4_wrappers(ck, F)
     e_helper_forms(ck, F)
     h_msb_first(ck, F)
+    w_width_prologue(ck, F)
     f_start_code(ck, F)
     g_vlc(ck, F)
